@@ -49,6 +49,10 @@ expression may use them too; the driver computes their float values, so the bloc
 module must resolve every name the in-process solver resolves (C20_ResolvesSolverNames, C20_Closed over the
 module's own globals, which the driver reads from the import statements of the written file).
 
+Step index (seventh follow-up): ordinary equations (+ 0.25*k) and a user-defined time equation (t = 0.25*k +
+2000.0) read the step index k under every kind of time axis; the module must bind k whenever an equation reads it
+(C20_Closed; GenEqOp adds k whenever ReadsK, not only for the injected t = k).
+
 Nameless right-hand sides (sixth follow-up): the parameter line and zero-row equations are spelled as a plain
 literal or as arithmetic on literals only (4/2, (2.0), - 2.0, 3/5, 0.04/4, 0x2, ...), read by other equations; the
 Iterator must evaluate every equation as written (C20_IteratorEvaluatesEquations), whatever the declaration takes
@@ -116,7 +120,7 @@ PARAM_SPELLINGS = [None, '4/2', '0.5*4', '(2.0)', '- 2.0', '2*0.3', '3/5', '0.04
 TIME_WRAPS = ['t', 'max(t, 0.0)', 'hypot(t, 0.0)', 'abs(t)', 'copysign(t, 1.0)']
 RESERVED_ATTRS = ('MaxIterations', 'MaxTime', 'STEP', 'PrintIterations', 'Err_Tolerance', 'VariableList')
 NAME_FIELDS = ('endo', 'lagged', 'exos', 'ics', 'maxTime', 'foundT', 'reduce')
-GRAMMAR_FIELDS = ('n', 'A', 'lag', 'ic', 'exo', 'cst', 'userT', 'useT', 'tol', 'maxTime', 'nm', 'fn', 'tw', 'red', 'al', 'ps')
+GRAMMAR_FIELDS = ('n', 'A', 'lag', 'ic', 'exo', 'cst', 'userT', 'useT', 'tol', 'maxTime', 'nm', 'fn', 'tw', 'red', 'al', 'ps', 'uk')
 REGEN_FRACTION_QUICK = 1.0 / 3.0
 
 
@@ -164,6 +168,8 @@ def system(block):
         if i == n - 1 and block['useT']:
             e['same']['t'] = F(1, 4)
             e['same_text'] = {'t': TIME_WRAPS[block.get('tw', 0)]}
+        if i == n - 1 and block.get('uk'):
+            e['k'] = F(1, 4)                                 # an ordinary equation reads the step index: + 0.25*k
         eqs[v] = e
     if block.get('al'):                                      # an alias nothing reads: INC = <last>
         eqs['INC'] = {'same': {last: F(1)}, 'lag': {}, 'const': F(0), 'k': F(0), 'const_text': None}
@@ -179,6 +185,8 @@ def system(block):
     if block['userT'] == 'endo':
         eqs['t'] = {'same': {}, 'lag': {'t': F(1)}, 'const': F(1), 'k': F(0), 'const_text': None,
                     'lag_terms': [('t_minus_1', 't', F(1))]}
+    elif block['userT'] == 'endok':                          # a user time axis written with the step index
+        eqs['t'] = {'same': {}, 'lag': {}, 'const': F(2000), 'k': F(1, 4), 'const_text': None}
     elif block['userT'] == 'none':
         eqs['t'] = {'same': {}, 'lag': {}, 'const': F(0), 'k': F(1), 'const_text': None, 'injected': True}
     lagname = {}
@@ -219,6 +227,8 @@ def _rhs(e, lagname):
         terms.append((c, e.get('same_text', {}).get(u, u)))
     for nm, dummy, c in e.get('lag_terms', []):
         terms.append((c, nm))
+    if e['k'] != 0 and not e.get('injected'):
+        terms.append((e['k'], 'k'))
     out = ''
     for c, nm in terms:
         mag = abs(c)
@@ -255,6 +265,8 @@ def render(block):
     if block['userT'] == 'endo':
         lines.append('t = t_minus_1 + 1.0')
         lines.append('t_minus_1 = t(k-1)')
+    if block['userT'] == 'endok':
+        lines.append('t = ' + _rhs(sysm['eqs']['t'], sysm['lagname']))
     if block['ic']:
         lines.append('%s(0) = 10.0' % sysm['last'])
     if block['tol']:
@@ -298,7 +310,7 @@ def check_grammar_binding(block):
     for v, e in sysm['eqs'].items():
         if e.get('injected') or e.get('derived'):
             continue
-        text = 't_minus_1 + 1.0' if v == 't' else _rhs(e, sysm['lagname'])
+        text = 't_minus_1 + 1.0' if v == 't' and block['userT'] == 'endo' else _rhs(e, sysm['lagname'])
         got[v] = names_in(text)
     if want != got:
         raise core.MachineryError('grammar/driver disagree on the names read: %r vs %r' % (want, got))
@@ -988,6 +1000,8 @@ def run(rep):
     rep.extra['blocks_with_names_of_generated_locals'] = sum(1 for b in blocks if b['nm'] == 1)
     rep.extra['blocks_with_names_of_the_generated_class'] = sum(1 for b in blocks if b['nm'] == 2)
     rep.extra['blocks_with_a_variable_named_NEW_other_variable'] = sum(1 for b in blocks if b['nm'] == 3 and b['n'] > 1)
+    rep.extra['blocks_with_a_user_equation_reading_the_step_index'] = sum(1 for b in blocks
+                                                                          if b['uk'] or b['userT'] == 'endok')
     rep.extra['blocks_with_a_nameless_right_hand_side_spelled_as_arithmetic'] = sum(1 for b in blocks if b['ps'])
     rep.extra['blocks_generated_with_equation_reduction'] = sum(1 for b in blocks if b['red'])
     rep.extra['blocks_with_a_tolerance_of_one_or_more'] = sum(1 for b in blocks if b['tol'] >= 100)
